@@ -21,6 +21,8 @@ pub enum Op {
     Drop(u8),
     Use(u8),
     PanicDrop(u8),
+    /// explicit `zeroize()` of a live instance (it stays alive and can be refilled by clone_from)
+    Wipe(u8),
 }
 
 const SLOTS: usize = 3;
@@ -100,7 +102,7 @@ fn sim(prog: &[Op]) -> Option<[u8; SLOTS]> {
                 }
                 s[i as usize] = 0;
             }
-            Op::Use(i) => {
+            Op::Use(i) | Op::Wipe(i) => {
                 if s[i as usize] == 0 {
                     return None;
                 }
@@ -128,6 +130,7 @@ fn all_ops(nvals: u8) -> Vec<Op> {
         v.push(Op::Drop(i));
         v.push(Op::Use(i));
         v.push(Op::PanicDrop(i));
+        v.push(Op::Wipe(i));
     }
     v
 }
@@ -262,8 +265,24 @@ pub fn execute(seed: u64, prog: &[Op]) -> Result<Outcome, String> {
                 let (o, exp) = slots[i as usize].take().unwrap();
                 release(o, &exp, "drop during unwinding", &mut out).map_err(ctx)?;
             }
+            Op::Wipe(i) => {
+                use zeroize::Zeroize;
+                let (o, exp) = slots[i as usize].as_mut().unwrap();
+                match o {
+                    Obj::Priv(k) => k.zeroize(),
+                    Obj::Pay(k) => k.zeroize(),
+                    Obj::PayOdd(k) => k.1.zeroize(),
+                }
+                if o.bytes().iter().any(|&b| b != 0) {
+                    return Err(ctx("zeroize() left secret bytes in the instance".into()));
+                }
+                *exp = o.bytes().to_vec();
+            }
             Op::Use(i) => {
                 let (o, exp) = slots[i as usize].as_ref().unwrap();
+                if exp.len() != 32 {
+                    continue; // an explicitly wiped private key (empty) is not passed to the handshake
+                }
                 let r = guarded(|| match o {
                     Obj::Priv(k) => {
                         let pk = k.to_public().map_err(|e| e.to_string())?;
@@ -471,7 +490,16 @@ fn cli_exit_scan(rep: &Report) {
         ("encrypt-output-dir-missing", vec!["encrypt", "plain.bin", "-t", "bob", "-f", "alice", "-k", "kr.txt", "-o", "nodir/out.bin", "--env-pass"], "alicepw", false),
         ("encrypt-to-dev-full", vec!["encrypt", "plain.bin", "-t", "bob", "-f", "alice", "-k", "kr.txt", "-o", "/dev/full", "--env-pass"], "alicepw", false),
         ("extract-pub", vec!["key", "extract-pub", &alice.locked, "--env-pass"], "alicepw", false),
+        // success paths that end differently: the sender is not in the keyring; the file is for somebody else
+        ("decrypt-sender-unknown", vec!["decrypt", "ct.ktl", "-t", "bob", "-k", "kr-bob-only.txt", "-o", "out.bin", "--env-pass"], "bobpw", false),
+        ("decrypt-sender-unknown-to-stdout", vec!["decrypt", "ct.ktl", "-t", "bob", "-k", "kr-bob-only.txt", "--env-pass"], "bobpw", false),
+        ("decrypt-as-the-wrong-recipient", vec!["decrypt", "ct.ktl", "-t", "alice", "-k", "kr.txt", "-o", "out.bin", "--env-pass"], "alicepw", false),
+        ("encrypt-to-self", vec!["encrypt", "plain.bin", "-t", "alice", "-f", "alice", "-k", "kr.txt", "-o", "out.bin", "--env-pass"], "alicepw", false),
+        ("encrypt-unknown-recipient", vec!["encrypt", "plain.bin", "-t", "nobody", "-f", "alice", "-k", "kr.txt", "-o", "out.bin", "--env-pass"], "alicepw", false),
+        ("encrypt-missing-input", vec!["encrypt", "nosuch.bin", "-t", "bob", "-f", "alice", "-k", "kr.txt", "-o", "out.bin", "--env-pass"], "alicepw", false),
+        ("decrypt-password-file-given", vec!["decrypt", "plain.bin", "-t", "bob", "-k", "kr.txt", "-o", "out.bin", "--env-pass"], "bobpw", false),
     ];
+    let kr_bob_only = crate::fx::keyring(&[(&bob, true)]);
     use rayon::prelude::*;
     cases.par_iter().for_each(|(name, args, pw, closed)| {
         rep.eval(1);
@@ -479,6 +507,7 @@ fn cli_exit_scan(rep: &Report) {
         let attempt = || -> Result<(), String> {
             let sc = Scratch::new();
             sc.write("kr.txt", kr.as_bytes());
+            sc.write("kr-bob-only.txt", kr_bob_only.as_bytes());
             sc.write("plain.bin", &p);
             sc.write("ct.ktl", &f);
             sc.write("bad.ktl", &bad);
